@@ -307,7 +307,7 @@ unit({
     'name': 'bmph',
     'includes': ['kr.h', 'wr.h'],
     'ctor_calls': {'vec_u8': {'fn': 'vec_u8_ctor_fill', 'throws': True}},
-    'default_ctors': {'BitmapFile': 'BitmapFile_ctor0'},
+    'default_ctors': {'BitmapFile': 'BitmapFile_ctor0', 'vec_u8': 'vec_u8_ctor0'},
     'typemap': dict(BMP_TM, **{'Stream::Writer': 'Wr', 'Stream::BidirectionalReader': 'Rd'}),
     'enums': [('src/Bitmap/BmpCompression.h', 'BmpCompression'), ('src/Bitmap/BitmapFile.h', 'ScanLineOrientation')],
     'structs': [STR_VIEW] + BMP_STRUCTS,
@@ -327,6 +327,9 @@ unit({
         _bf('VerifyPixelSizeMatchesImageDimensionsWithPitch', nparams=4, static=True),
         _bf('VerifyIndexedImageForSerialization', static=True),
         _bf('GetScanLineOrientation'), _bf('AbsoluteHeight'),
+        _bf('InvertScanLines', calls={'reserve': N('vec_u8_reserve'), 'end': N('vec_u8_end'), 'begin': N('vec_u8_begin'), 'insert': {3: T('vec_u8_insert_range')},
+                                     'CalculatePitch': {0: N('ImageHeader_CalculatePitch0')}, 'AbsoluteHeight': N('BitmapFile_AbsoluteHeight')},
+            views=[(r'self->pixels', 'vec'), (r'invertedPixels', 'vec')]),
         _bf('CreateIndexed', nparams=3, static=True, members={}, ret_cxx='BitmapFile',
             calls={'Create': [(r'ImageHeader', T('ImageHeader_Create', recv='none')), (r'BmpHeader', N('BmpHeader_Create', recv='none'))],
                    'resize': [(r'.*palette', T('vec_Color_resize')), (r'.*pixels', T('vec_u8_resize'))],
@@ -665,8 +668,9 @@ def _vr(name, **kw):
 VOLR_TM = dict(VOL_TM, **{'Stream::FileReader': 'Fr', 'VolFile': 'VolFile', 'std::unique_ptr<Stream::BidirectionalReader>': 'SliceT', 'std::size_t': 'size_t'})
 unit({
     'name': 'volr',
-    'includes': ['kf.h'],
-    'typemap': VOLR_TM,
+    'includes': ['kf.h', 'wr.h', 'volw.h'],
+    'ctor_calls': {'FileWriterT': {'fn': 'FileWriter_ctor', 'throws': True}},
+    'typemap': dict(VOLR_TM, **{'Stream::FileWriter': 'FileWriterT', 'FileWriter': 'FileWriterT'}),
     'enums': [('src/Archive/CompressionType.h', 'CompressionType'), (VH, 'VolPadding')],
     'structs': [STR_VIEW, TAG_T, VIEW('vec_str', 'str'), (VH, 'IndexEntry', {'cname': 'VolIndexEntry'}), (VH, 'SectionHeader', {'cname': 'VolSectionHeader'}),
                 VIEW('vec_VolIndexEntry', 'VolIndexEntry'), (VH, 'VolFile', {'bases': [('src/Archive/ArchiveFile.h', 'ArchiveFile')]})],
@@ -680,12 +684,13 @@ unit({
         'GetSectionHeader': T('VolFile_GetSectionHeader'),
         'ReadTag': T('VolFile_ReadTag'), 'ReadStringTable': T('VolFile_ReadStringTable'), 'CountValidEntries': N('VolFile_CountValidEntries'),
         'resize': {1: T('vec_VolIndexEntry_resize')},
-        'ExtractFileUncompressed': T('VolFile_ExtractFileUncompressed'), 'ExtractFileLzh': T('VolFile_ExtractFileLzh'),
+        'ExtractFileUncompressed': T('VolFile_ExtractFileUncompressed', args=[None, 'ref']), 'ExtractFileLzh': T('VolFile_ExtractFileLzh'),
+        'Write': {1: [(r'slice', T('Wr_WriteSliceT', args=['ref']))]},
     },
     'functions': [
         _vr('GetName'), _vr('GetCompressionCode'), _vr('GetSize'), _vr('GetFileOffset'), _vr('GetFilenameOffset'),
         _vr('OpenStream'), _vr('GetSectionHeader'), _vr('ExtractFile', nparams=2, autos={'indexEntry': 'VolIndexEntry'}),
-        _vr('ReadTag'), _vr('ReadVolHeader'), _vr('CountValidEntries'),
+        _vr('ReadTag'), _vr('ReadVolHeader'), _vr('CountValidEntries'), _vr('ExtractFileUncompressed'),
     ],
 })
 
